@@ -213,13 +213,8 @@ def rule_flush(ctx):
             if cs is not None:
                 src_names = util.string_values(prog, ob, ob.op_expr(cs.args[0]))
             for w in writers:
-                relevant = True
-                if kind == 'rename' and src_names is not None and len(src_names) == 1 and w_names.get(w) and len(w_names[w]) == 1:
-                    relevant = (w_names[w] == src_names)
-                if not relevant:
-                    ctx.ok('flush', '%s:%s:%s:other-file' % (short, w, kind), (ob, bb),
-                           'rename of %s does not concern writer %s (%s)' % (src_names, w, w_names.get(w)), nontrivial=False)
-                    continue
+                # every writer of the callback must be flushed before ANY rename: a later failing flush must
+                # not leave earlier files under their final names ("leaves no final-named file from that run")
                 if st[w] == 'clean':
                     ctx.ok('flush', '%s:%s:%s' % (short, w, kind), (ob, bb),
                            'writer self.%s is flushed (checked) on every path to this %s' % (w, kind))
